@@ -97,6 +97,7 @@ type JobResult struct {
 	Matrix    [][]int         `json:"matrix,omitempty"`
 	Trans     []int           `json:"trans,omitempty"`
 	Consts    map[string]int  `json:"consts,omitempty"`
+	ConstsErr string          `json:"consts_err,omitempty"` // TypeScript: reading the token constants threw
 	Err       string          `json:"err,omitempty"`
 	ErrCode   int             `json:"err_code"`
 	AccCode   int             `json:"acc_code"`
